@@ -383,6 +383,25 @@ func C20(blk *hist.Block) []Finding {
 			}
 		}
 	}
+	// an accepted listing is what the record says afterwards: the last successful sale transaction of the
+	// block (if nothing sold or cancelled the name after it) fixes the sale flag and the asking price
+	for n, es := range evs {
+		cd := cur[n]
+		if cd == nil || len(es) == 0 {
+			continue
+		}
+		last := es[len(es)-1]
+		if last.kind != "DOMAIN_SELL" {
+			continue
+		}
+		if cancelled, _ := pField(last.p, "cancelSale").(bool); cancelled {
+			if cd.OnSale {
+				out = append(out, Finding{"C20", "C20/sale/cancel-not-applied", fmt.Sprintf("block %d: the owner cancelled the sale of %s, the record is still on sale", blk.H, n)})
+			}
+		} else if want := PAmount(last.p, "price"); !cd.OnSale || cd.Price().Cmp(want) != 0 {
+			out = append(out, Finding{"C20", "C20/sale/price-not-as-listed", fmt.Sprintf("block %d: the owner listed %s for %s, the record says on sale=%v at %s", blk.H, n, want, cd.OnSale, cd.Price())})
+		}
+	}
 	// a sub-name expires with its parent: in every committed state, whatever happened in the block
 	for n, cd := range cur {
 		if i := strings.Index(n, "."); i > 0 && strings.Count(n, ".") >= 2 {
